@@ -220,6 +220,11 @@ type C08 struct {
 	// trustedPausedAvailable: archived revision -> newer revision whose Available=True was reported while it was paused
 	// (probing without taking control) and which did not control everything the archived revision controlled
 	trustedPausedAvailable map[string]string
+	// seen: the last stored state of every revision ever written (history pruning may remove an intermediate revision
+	// before an older one has finished its teardown)
+	seen map[string]*pkomodel.Owner
+	// createdAt / archivedAt: commit sequence at which a revision was created / was marked archived by the deployment
+	createdAt, archivedAt map[string]int64
 }
 
 func (m *C08) OnRequest(e *scen.Env, req *simkube.Request) {
@@ -228,6 +233,23 @@ func (m *C08) OnRequest(e *scen.Env, req *simkube.Request) {
 	}
 	kind := req.GVK.Kind
 	isSet := kind == "ObjectSet" || kind == "ClusterObjectSet"
+	if isSet && req.Post != nil {
+		if o := pkomodel.OwnerFrom(req.Post); o != nil {
+			if m.seen == nil {
+				m.seen = map[string]*pkomodel.Owner{}
+			}
+			m.seen[o.NS+"/"+o.Name] = o
+			if m.createdAt == nil {
+				m.createdAt, m.archivedAt = map[string]int64{}, map[string]int64{}
+			}
+			if req.Verb == "create" {
+				m.createdAt[o.NS+"/"+o.Name] = req.StoreSeq
+			}
+			if pre := pkomodel.OwnerFrom(req.Pre); pre != nil && !pre.Archived && o.Archived {
+				m.archivedAt[o.NS+"/"+o.Name] = req.StoreSeq
+			}
+		}
+	}
 	if isDeploymentController(req.Pass.Actor) && isSet {
 		d := deploymentOfPass(req.Pass)
 		sets, _ := listedSets(req.Pass)
@@ -370,6 +392,15 @@ func (m *C08) OnRequest(e *scen.Env, req *simkube.Request) {
 		id := fmt.Sprintf("%s/%s/%s/%s", req.Key.Group, req.Key.Kind, req.Key.Namespace, req.Key.Name)
 		// a revision in between that was rolled out successfully without the object dropped it on purpose:
 		// deleting it then completes that handover, the newest revision re-adds it
+		inStore := map[string]bool{}
+		for _, sib := range siblings {
+			inStore[sib.NS+"/"+sib.Name] = true
+		}
+		for k, o := range m.seen {
+			if !inStore[k] && o.Kind == owner.Kind && o.NS == owner.NS && o.Labels["package-operator.run/object-deployment"] == dep {
+				siblings = append(siblings, o) // pruned meanwhile
+			}
+		}
 		for _, sib := range siblings {
 			if sib.Revision > owner.Revision && sib.Revision < newest.Revision && !ownerObjects(sib)[id] {
 				if c := sib.Cond("Succeeded"); c != nil && c.Status == "True" {
@@ -381,6 +412,12 @@ func (m *C08) OnRequest(e *scen.Env, req *simkube.Request) {
 					return
 				}
 			}
+		}
+		if at, ok := m.archivedAt[owner.NS+"/"+owner.Name]; ok && m.createdAt[newest.NS+"/"+newest.Name] > at {
+			// the revision that lists the object did not exist yet when the archival was decided: the template was edited
+			// between the decision and this teardown
+			e.Count("c08_object_listed_again_by_revision_created_after_archival")
+			return
 		}
 		if ownerObjects(newest)[id] {
 			sig := "C08:deleted-object-listed-by-current-revision"
